@@ -71,7 +71,8 @@ def generate(seed, tier, opts):
     spec = dict(opts.get("faultspec") or {"mode": "sample", "count": 40})
     spec["slice"] = [sl, slices]
     if real:
-        spec = {"mode": "sample", "count": int(opts.get("real_count", 6)), "slice": [sl, slices]}
+        # no line tracer here: sys.settrace would slow the interpreted kernels ~100x
+        spec = {"mode": "sample", "count": int(opts.get("real_count", 6)), "slice": [sl, slices], "interrupts": 0}
     return dict(
         seed=int(seed),
         wseed=wseed,
@@ -342,7 +343,13 @@ def enumerate_faults(case, ref, d):
         for f in allf:
             byclass.setdefault(f["site"], []).append(f)
         chosen = []
-        for cls in sorted(byclass):
+        classes = sorted(byclass)
+        if len(classes) > count:
+            # not enough budget for every class: a seeded subset, target-related ones first
+            pri = [c for c in classes if "target" in c or c in ("compute", "user", "interrupt")]
+            rest_c = d.shuffle("strat:classes", [c for c in classes if c not in pri])
+            classes = (d.shuffle("strat:pri", pri) + rest_c)[:count]
+        for cls in classes:
             chosen.append(d.pick("strat:" + cls, byclass[cls]))
         rest = [f for f in allf if f not in chosen]
         weights = []
